@@ -44,6 +44,8 @@ ASSIGNMENTS_QUICK = [
     "o() = X() + Y(k) + Z(k)",
     "o() = Y(k) + Z(k) + X()",
     "a() = b(i) * 2 + 1",
+    "a() = (b(k) + c()) * (d(k) + e())",
+    "a(i) = (b(i,k) + c(i)) * d(k)",
     "y(i) = A(i,j) * x(j)",
     "y(j) = A(i,j) * x(i)",
     "a(i) = B(i,j)",
